@@ -33,7 +33,7 @@ def main():
         res["tests"] = r.stdout.strip()
         r = sh(f"cd {wt} && /venv/bin/python {demo}")
         res["demo_with"] = r.returncode
-        sh(f"git -C {wt} diff > {wt}.diff")
+        sh(f"git -C {wt} diff HEAD > {wt}.diff")
         sh(f"git -C {wt} checkout -- . && git -C {wt} reset -q --hard")
         r = sh(f"cd {wt} && /venv/bin/python {demo}")
         res["demo_without"] = r.returncode
